@@ -24,28 +24,30 @@ import fault_enc as fe  # noqa: E402
 LEVEL = "fault_enumeration"
 
 XML_VOCAB_SUB = {
+    "all": ["osm", "osmChange", "create", "modify", "delete", "node", "way", "relation", "changeset", "tag", "nd", "member", "discussion",
+            "comment", "text", "bounds", "bbox", "foo"],
     # sub-vocabularies that reach length 6 exhaustively (the full vocabulary is exhaustive to length 3 / 4)
     "cs": ["osm", "changeset", "tag", "discussion", "comment", "text", "foo"],
     "way": ["osm", "way", "nd", "tag", "bbox", "foo"],
     "rel": ["osmChange", "modify", "delete", "relation", "member", "tag"],
 }
+SIM_N = 4000          # TLC -simulate num= per configuration (thorough tier)
+TYPE_SETS = ["n", "w", "r", "c", "nw", "wr", "nr"]
 VARIANTS = [("gzip", "mem"), ("bzip2", "mem"), ("none", "file"), ("gzip", "file"), ("bzip2", "file")]
 ASAN = "detect_leaks=0:abort_on_error=0:exitcode=97:allocator_may_return_null=1:max_allocation_size_mb=1024"
 
 
-def _write_sub_cfgs():
-    """cfgs for the sub-vocabulary runs are generated (they only differ in Vocab / MaxElems)"""
-    out = {}
-    for name, voc in XML_VOCAB_SUB.items():
-        path = os.path.join(vlib.SPECS, "GenFaultXml6_%s.cfg" % name)
-        text = ("SPECIFICATION Spec\nCONSTANTS\n  MaxElems = 6\n  MaxDepth = 6\n  Fixed = TRUE\n  ExportHist = TRUE\n  Vocab = {%s}\n"
-                "INVARIANTS TypeOK WellFormedCommitted BuilderDiscipline NoStaleBuilders ObjectMatchesStack Export\nCHECK_DEADLOCK FALSE\n"
-                % ", ".join('"%s"' % v for v in voc))
-        if not os.path.exists(path) or open(path).read() != text:
-            with open(path, "w") as fh:
-                fh.write(text)
-        out[name] = os.path.basename(path)
-    return out
+def _sub_cfg(name, n, types="nwrc"):
+    """cfgs for the sub-vocabulary / reduced read_types runs are generated (they only differ in Vocab / MaxElems / ReadTypes)"""
+    voc = XML_VOCAB_SUB[name]
+    path = os.path.join(vlib.SPECS, "GenFaultXml%d_%s%s.cfg" % (n, name, "" if types == "nwrc" else "_" + types))
+    text = ("SPECIFICATION Spec\nCONSTANTS\n  MaxElems = %d\n  MaxDepth = 6\n  Fixed = TRUE\n  ReadTypes = {%s}\n  ExportHist = TRUE\n  Vocab = {%s}\n"
+            "INVARIANTS TypeOK WellFormedCommitted BuilderDiscipline NoStaleBuilders ObjectMatchesStack Export\nCHECK_DEADLOCK FALSE\n"
+            % (n, ", ".join('"%s"' % t for t in types), ", ".join('"%s"' % v for v in voc)))
+    if not os.path.exists(path) or open(path).read() != text:
+        with open(path, "w") as fh:
+            fh.write(text)
+    return os.path.basename(path)
 
 
 # ------------------------------------------------------------------------------------------- descriptions -> cases
@@ -96,18 +98,21 @@ class CaseSet:
         self.cases = []
         self.seen = set()
         self.noop = 0
+        self.inapplicable = 0
         self.dups = 0
         self.by_class = {}
 
-    def add(self, key, fmt, data, rawlen, exp, comp="none", via="mem", cls="", trunc_frac=None, valid=None):
+    def add(self, key, fmt, data, rawlen, exp, comp="none", via="mem", cls="", trunc_frac=None, valid=None, **opts):
         b = fe.compress(data, comp, trunc_frac)
         h = hashlib.sha1(b).hexdigest()
-        k = (fmt, comp, via, h, json.dumps(exp, sort_keys=True) if exp and exp.get("outcome") != "any" else "")
+        k = (fmt, comp, via, h, json.dumps(exp, sort_keys=True) if exp and exp.get("outcome") != "any" else "", json.dumps(opts, sort_keys=True))
         if k in self.seen:
             self.dups += 1
             return
         self.seen.add(k)
-        c = dict(id="c%d" % len(self.cases), key=key, fmt=fmt, comp=comp, via=via, hex=b.hex(), rawlen=rawlen, cls=cls)
+        c = dict(id="c%d" % len(self.cases), key=key + "".join(" %s=%s" % kv for kv in sorted(opts.items())), fmt=fmt, comp=comp, via=via,
+                 hex=b.hex(), rawlen=rawlen, cls=cls)
+        c.update(opts)
         if exp:
             c["exp"] = exp
         if valid is not None and data == valid and trunc_frac is None:
@@ -119,8 +124,9 @@ class CaseSet:
 
 def materialise_struct(cs, descs, fmt, quick, seed, valid_bytes):
     n = 0
+    # TLC's output order depends on its worker threads: order the descriptions so that the variant rotation is reproducible
+    descs = sorted((norm_desc(d) for d in descs), key=lambda d: d["key"])
     for d in descs:
-        d = norm_desc(d)
         t = d.get("trunc")
         key = d["key"]
         if t and t.get("w") == "every-prefix":
@@ -141,6 +147,10 @@ def materialise_struct(cs, descs, fmt, quick, seed, valid_bytes):
         try:
             b, rawlen, _ = fe.materialise(d)
         except fe.Unknown as ex:
+            if t and d.get("faults"):
+                # a fault (missing / empty element, blob stored differently) removed the element the truncation refers to
+                cs.inapplicable += 1
+                continue
             raise vlib.ModelFailure("spec position/fault unknown to the encoder: %s (%s)" % (key, ex))
         exp = d.get("exp") or dict(outcome="any")
         exp = {k: v for k, v in exp.items() if not (k == "nobj" and v < 0)}
@@ -148,18 +158,31 @@ def materialise_struct(cs, descs, fmt, quick, seed, valid_bytes):
         if fmt == "xml":
             cls = "xml:" + ("doc" if "doc" in d else "attr" if "attr" in d else "base")
         else:
-            cls = fmt + ":" + ("trunc" if t else "fault%d" % len(d.get("faults", [])))
+            cls = fmt + ":" + (("fault%d+trunc" % len(d["faults"]) if d.get("faults") else "trunc") if t else "fault%d" % len(d.get("faults", [])))
         cs.add(key, fmt, b, rawlen, exp, cls=cls, valid=valid)
         if len(b) > 300000:
             continue
-        extra = VARIANTS if not quick and len(b) < 5000 else [VARIANTS[(n + seed) % len(VARIANTS)]]
+        single = len(d.get("faults", [])) < 2 and not (t and d.get("faults"))
+        extra = VARIANTS if not quick and single and len(b) < 5000 else [VARIANTS[(n + seed) % len(VARIANTS)]]
         for comp, via in extra:
             cs.add(key, fmt, b, rawlen, exp, comp=comp, via=via, cls=cls + "+" + comp + "/" + via, valid=valid)
+        # the parsers have separate code paths for "no metadata wanted" (PBF: a second dense-node decoder) and for
+        # entity types that were not asked for (objects are skipped / not built)
+        # (with a subset of the entity types even the valid base file need not be readable: the o5m parser skips datasets of
+        # unwanted types without decoding them and so loses the state of its string table - observed, reported, not C03's business)
+        eany = dict(outcome="any")
+        if fmt == "pbf" and (single or n % 3 == 0):
+            cs.add(key, fmt, b, rawlen, exp, cls=cls + "+nometa", valid=valid, meta=False)
+        if single or n % 3 == 1:
+            types = TYPE_SETS[(n + seed) % len(TYPE_SETS)]
+            cs.add(key, fmt, b, rawlen, eany, cls=cls + "+types", valid=valid, types=types)
         n += 1
 
 
-def materialise_xml_handler(cs, payloads, quick, seed, label):
-    n = 0
+def _handler_chunk(args):
+    payloads, quick, seed, label, first, types = args
+    out = []
+    n = first
     for p in payloads:
         d = dict(fmt="xml", ev=p["ev"], close=True)
         b, rawlen, _ = fe.materialise(d)
@@ -168,47 +191,105 @@ def materialise_xml_handler(cs, payloads, quick, seed, label):
             exp["objs"] = shape_from_spec(p["objs"])
             exp["nobj"] = p["n"]
         key = desc_key(d)
-        cs.add(key, "xml", b, rawlen, exp, cls="xml:handler-" + label)
-        if (n + seed) % (11 if quick else 5) == 0:
-            comp, via = VARIANTS[(n // 5 + seed) % len(VARIANTS)]
-            cs.add(key, "xml", b, rawlen, exp, comp=comp, via=via, cls="xml:handler-" + label + "+" + comp + "/" + via)
+        cls = "xml:handler-" + label
+        if types != "nwrc":
+            key += " types=" + types
+        out.append(dict(id="h%s-%d" % (label, n), key=key, fmt="xml", comp="none", via="mem", hex=b.hex(), rawlen=rawlen, cls=cls, exp=exp, types=types))
+        if (n + seed) % (11 if quick else 7) == 0:
+            comp, via = VARIANTS[(n // 7 + seed) % len(VARIANTS)]
+            out.append(dict(id="h%s-%d-%s-%s" % (label, n, comp, via), key=key, fmt="xml", comp=comp, via=via, hex=fe.compress(b, comp).hex(),
+                            rawlen=rawlen, cls=cls + "+" + comp + "/" + via, exp=exp, types=types))
         n += 1
+    return out
+
+
+def materialise_xml_handler(payloads, quick, seed, label, first, types="nwrc"):
+    """distinct histories give distinct documents: no de-duplication needed; done in worker processes"""
+    import multiprocessing
+    step = 5000
+    jobs = [(payloads[i:i + step], quick, seed, label, first + i, types) for i in range(0, len(payloads), step)]
+    if len(jobs) <= 1:
+        return [c for j in jobs for c in _handler_chunk(j)]
+    with multiprocessing.Pool(min(8, vlib.NCPU)) as pool:
+        return [c for part in pool.map(_handler_chunk, jobs) for c in part]
 
 
 # ------------------------------------------------------------------------------------------- TLC
 
-def run_tlc(ctx, quick, out):
-    """all TLC work (runs in a thread while the harness builds)"""
+_tlc_lock = threading.Lock()
+
+
+def _add_tlc(ctx, r, label):
+    with _tlc_lock:
+        ctx.add_tlc(r, label)
+
+
+def run_tlc(ctx, quick, out, part):
+    """all TLC work (two threads - "struct" and "xml" - run while the harness builds)"""
     try:
         w = 4
+        if part == "xml":
+            return run_tlc_xml(ctx, quick, out, w)
         r = vlib.tlc_ok(vlib.tlc("FaultModelXml", "MCFaultXmlQ.cfg" if quick else "MCFaultXml.cfg", workers=w, coverage=True, timeout=900),
                         "XML handler design check")
         vlib.require_actions(r, ["Start", "End", "Chars"], "XML handler design check")
-        ctx.add_tlc(r, "FaultModelXml: repaired handler, every element sequence over 18 elements, <= %d elements, depth <= 6: "
+        _add_tlc(ctx, r, "FaultModelXml: repaired handler, every element sequence over 18 elements, <= %d elements, depth <= 6: "
                        "WellFormedCommitted, BuilderDiscipline, NoStaleBuilders, ObjectMatchesStack" % (5 if quick else 6))
         rd = vlib.tlc("FaultModelXml", "MCFaultXmlDefect.cfg", workers=w, timeout=600, extra=["-noGenerateSpecTE"])
         if rd.error or not rd.violation or "WellFormedCommitted" not in rd.violation:
             raise vlib.ModelFailure("the as-shipped handler model (Fixed=FALSE) must violate WellFormedCommitted - the model lost its teeth: %s"
                                     % (rd.error or rd.violation or "no violation"))
-        ctx.add_tlc(rd, "FaultModelXml as shipped (Fixed=FALSE): WellFormedCommitted violated as expected (comment without text)")
+        _add_tlc(ctx, rd, "FaultModelXml as shipped (Fixed=FALSE): WellFormedCommitted violated as expected (comment without text)")
         out["struct"] = {}
         for fmt in ("pbf", "o5m", "opl", "xml"):
-            if not quick:
+            if not quick and fmt != "xml":
                 r = vlib.tlc_ok(vlib.tlc("FaultModel", "MCFault_%s.cfg" % fmt, workers=w, timeout=900), "fault catalogue %s" % fmt)
-                ctx.add_tlc(r, "FaultModel %s: <= 2 faults + truncation, Applicable / TruncOK / DistinctPositions" % fmt)
-            cfg = "GenFault_%s%s.cfg" % (fmt, "Q" if quick or fmt == "xml" else "T")
+                _add_tlc(ctx, r, "FaultModel %s: 1 fault with a truncation on top, Applicable / TruncOK / DistinctPositions" % fmt)
+            cfg = "GenFault_%sQ.cfg" % fmt
             r = vlib.tlc_ok(vlib.tlc("FaultModel", cfg, workers=w, timeout=1200), "fault export %s" % fmt)
-            ctx.add_tlc(r, "FaultModel %s export (%s)" % (fmt, cfg))
+            _add_tlc(ctx, r, "FaultModel %s export, exhaustive: base file x (one fault | one truncation | every prefix) (%s)" % (fmt, cfg))
             out["struct"][fmt] = r.cases
+            if not quick and fmt != "xml":
+                # multi-fault descriptions: seeded random walks through the same machine (pairs of faults; <= 2 faults + truncation)
+                for cfg, lab in (("SimFault_%s.cfg" % fmt, "two faults"), ("SimFaultT_%s.cfg" % fmt, "<= 2 faults with a truncation on top")):
+                    r = vlib.tlc_ok(vlib.tlc("FaultModel", cfg, workers=w, simulate=SIM_N, depth=8, seed=ctx.seed, timeout=900), "fault simulation %s" % fmt)
+                    _add_tlc(ctx, r, "FaultModel %s simulation (%s): %s" % (fmt, cfg, lab))
+                    out["struct"][fmt] = out["struct"][fmt] + r.cases
+    except BaseException as ex:  # re-raised in the main thread
+        out["error"] = ex
+
+
+def run_tlc_xml(ctx, quick, out, w):
+    try:
         out["xml"] = []
         r = vlib.tlc_ok(vlib.tlc("FaultModelXml", "GenFaultXml3.cfg" if quick else "GenFaultXml4.cfg", workers=w, timeout=1500), "XML handler export")
-        ctx.add_tlc(r, "FaultModelXml export: every terminal history, full vocabulary, <= %d elements" % (3 if quick else 4))
-        out["xml"].append(("full%d" % (3 if quick else 4), r.cases))
-        subs = _write_sub_cfgs()
-        for name in (["cs"] if quick else sorted(subs)):
-            r = vlib.tlc_ok(vlib.tlc("FaultModelXml", subs[name], workers=w, timeout=1500), "XML handler export %s" % name)
-            ctx.add_tlc(r, "FaultModelXml export: every terminal history over the sub-vocabulary %s, <= 6 elements" % XML_VOCAB_SUB[name])
-            out["xml"].append((name + "6", r.cases))
+        _add_tlc(ctx, r, "FaultModelXml export: every terminal history, full vocabulary, <= %d elements" % (3 if quick else 4))
+        full = sorted(r.cases, key=lambda c: c["ev"])
+        frac = float(os.environ.get("C03_DEV_FRACTION", "1") or "1")
+        if frac < 1:
+            import random
+            random.Random(ctx.seed).shuffle(full)
+            full = full[:int(len(full) * frac)]
+            ctx.extra.setdefault("sampled", {})["full"] = "development run: fraction %s" % frac
+        out["xml"].append(("full%d" % (3 if quick else 4), full, "nwrc"))
+        # (vocabulary, elements, read_types, replay a seeded sample of this many histories / 0 = all)
+        runs = ((("cs", 4, "nwrc", 0), ("way", 4, "nwrc", 0), ("rel", 4, "nwrc", 0), ("all", 2, "n", 0), ("all", 2, "c", 0), ("cs", 4, "n", 0)) if quick else
+                (("cs", 5, "nwrc", 0), ("cs", 6, "nwrc", 30000), ("way", 5, "nwrc", 0), ("rel", 5, "nwrc", 0), ("all", 3, "n", 0), ("all", 3, "c", 0),
+                 ("all", 3, "wr", 0), ("cs", 4, "n", 0)))
+        for name, n, types, sample in runs:
+            r = vlib.tlc_ok(vlib.tlc("FaultModelXml", _sub_cfg(name, n, types), workers=w, timeout=1500), "XML handler export %s" % name)
+            _add_tlc(ctx, r, "FaultModelXml export: every terminal history over the vocabulary %s, <= %d elements, read_types=%s"
+                        % (name if name == "all" else XML_VOCAB_SUB[name], n, types or "nothing"))
+            cases = sorted(r.cases, key=lambda c: c["ev"])      # TLC's output order depends on its worker threads
+            frac = float(os.environ.get("C03_DEV_FRACTION", "1") or "1")     # development only: shorter thorough runs
+            if frac < 1:
+                sample = max(1000, int((sample or len(cases)) * frac))
+            if sample and len(cases) > sample:
+                import random
+                random.Random(ctx.seed).shuffle(cases)
+                ctx.extra.setdefault("sampled", {})["%s%d" % (name, n)] = "%d of %d histories replayed" % (sample, len(cases))
+                cases = cases[:sample]
+            out["xml"].append(("%s%d%s" % (name, n, "" if types == "nwrc" else "-" + (types or "none")), cases, types))
     except BaseException as ex:  # re-raised in the main thread
         out["error"] = ex
 
@@ -229,20 +310,36 @@ def failure_kind(r):
     return r.get("note", "mismatch")
 
 
+_confirmed_hangs = [0]
+
+
 def classify(ctx, case, r, build, binary, tmpdir):
     kind = failure_kind(r)
-    if kind in ("hang", "timeout"):
-        # a hang is only reported when it reproduces alone with a long watchdog
+    if kind in ("hang", "timeout") and _confirmed_hangs[0] < 2:
+        # a hang is only reported when it reproduces alone with a long watchdog (once two hangs were confirmed that way the
+        # others are taken as they are: every confirmation costs minutes)
         rr = vlib.replay_cases(binary, [case], nproc=1, timeout=400, args=(tmpdir, "240"), env={"ASAN_OPTIONS": ASAN})
-        if rr and rr[0].get("ok"):
+        if rr and not rr[0].get("ok") and failure_kind(rr[0]) in ("hang", "timeout"):
+            _confirmed_hangs[0] += 1
+        if rr and rr[0].get("ok") and not rr[0].get("skipped"):
             return
-        if rr:
+        if rr and not rr[0].get("skipped"):
             r = rr[0]
             kind = failure_kind(r)
     detail = ""
-    if r.get("crash"):
+    if r.get("crash") and r["crash"] != "timeout":
+        # run the case once more alone to get the complete sanitizer report (vlib keeps only an excerpt)
+        rc, so, se = vlib.run_harness(binary, (tmpdir, "240"), stdin_text=json.dumps(case) + "\n", timeout=400, env={"ASAN_OPTIONS": ASAN})
+        if rc != 0 and se.strip():
+            r = dict(r, stderr=se[:6000])
         lines = [l for l in r.get("stderr", "").splitlines() if "runtime error" in l or "ERROR: AddressSanitizer" in l or "SUMMARY" in l]
-        detail = (lines[0] if lines else "")[-160:]
+        detail = (lines[0] if lines else "")[:200]
+        if "AddressSanitizer" in detail:
+            # "==pid==ERROR: AddressSanitizer: heap-buffer-overflow on address 0x... at pc ..." -> keep the error class only
+            detail = "AddressSanitizer: " + detail.split("AddressSanitizer:")[-1].split(" on ")[0].strip()
+            frames = [l.strip() for l in r.get("stderr", "").splitlines() if l.lstrip().startswith("#") and "/include/osmium/" in l]
+            if frames:
+                detail += " at " + frames[0].split("/include/")[-1][:80]
         # the file and line of a UBSan report identify the defect
         for l in lines:
             if "runtime error" in l:
@@ -268,6 +365,7 @@ def replay_all(ctx, cases, builds, tmpdir, stats):
         for r in res:
             c = byid[r["id"]]
             if r.get("skipped"):
+                stats["skipped"] = stats.get("skipped", 0) + 1
                 continue
             stats["runs"] += 1
             oc = r.get("outcome") or "none"
@@ -286,12 +384,14 @@ def run(ctx):
     tmpdir = os.path.join(vlib.BUILD, "tmp", "c03_%d" % os.getpid())
     os.makedirs(tmpdir, exist_ok=True)
     out = {}
-    th = threading.Thread(target=run_tlc, args=(ctx, quick, out))
-    th.start()
+    ths = [threading.Thread(target=run_tlc, args=(ctx, quick, out, part)) for part in ("struct", "xml")]
+    for th in ths:
+        th.start()
     try:
         binaries()               # cold build runs while TLC works
     finally:
-        th.join()
+        for th in ths:
+            th.join()
     if "error" in out:
         raise out["error"]
 
@@ -304,39 +404,61 @@ def run(ctx):
     ndesc = 0
     for fmt in ("pbf", "o5m", "opl", "xml"):
         descs = out["struct"][fmt]
-        if not quick and fmt != "xml":
-            # all single faults, truncations and prefixes; a seeded sample of the pairs
-            import random
-            rnd = random.Random(ctx.seed)
-            pairs = [d for d in descs if len(d["faults"]) == 2]
-            rest = [d for d in descs if len(d["faults"]) != 2]
-            rnd.shuffle(pairs)
-            ctx.extra.setdefault("pairs_total", {})[fmt] = len(pairs)
-            descs = rest + pairs[:30000]
         ndesc += len(descs)
         materialise_struct(cs, descs, fmt, quick, ctx.seed, valid)
-    for label, payloads in out["xml"]:
-        ndesc += len(payloads)
-        materialise_xml_handler(cs, payloads, quick, ctx.seed, label)
-    vlib.log("[C03] %d descriptions -> %d cases (%d duplicates dropped, %d identical to the valid file) in %.1fs"
+    vlib.log("[C03] %d structure descriptions -> %d cases (%d duplicates dropped, %d identical to the valid file) in %.1fs"
              % (ndesc, len(cs.cases), cs.dups, cs.noop, time.time() - t0))
 
     stats = {"runs": 0, "outcomes": {}}
+    ncases = len(cs.cases)
+    nontrivial = len(set((c["fmt"], c["comp"], c["hex"]) for c in cs.cases if not c.get("noop")))
+    samples = list(cs.cases)
     try:
         replay_all(ctx, cs.cases, ("ndebug", "assert"), tmpdir, stats)
+        for label, payloads, types in out["xml"]:
+            ndesc += len(payloads)
+            for i in range(0, len(payloads), 120000):
+                t1 = time.time()
+                batch = materialise_xml_handler(payloads[i:i + 120000], quick, ctx.seed, label, i, types)
+                for c in batch:
+                    cs.by_class[c["cls"]] = cs.by_class.get(c["cls"], 0) + 1
+                if i == 0:
+                    samples += batch[:3] + batch[-3:]
+                ncases += len(batch)
+                nontrivial += len(batch)
+                t2 = time.time()
+                if not quick and label.startswith("full"):
+                    # the big export: histories of <= 3 elements run in both builds, the longer ones alternate between the builds
+                    both = [c for c in batch if c["key"].count("S:") <= 4]
+                    rest = [c for c in batch if c["key"].count("S:") > 4]
+                    replay_all(ctx, both, ("ndebug", "assert"), tmpdir, stats)
+                    replay_all(ctx, rest[0::2], ("ndebug",), tmpdir, stats)
+                    replay_all(ctx, rest[1::2], ("assert",), tmpdir, stats)
+                    ctx.extra["full4_split"] = "histories with 4 elements alternate between the two builds; <= 3 elements run in both"
+                else:
+                    replay_all(ctx, batch, ("ndebug", "assert"), tmpdir, stats)
+                vlib.log("[C03] xml handler %s: %d cases materialised in %.1fs, replayed in %.1fs" % (label, len(batch), t2 - t1, time.time() - t2))
+                if len(ctx.violations) > 200:
+                    break
     finally:
         shutil.rmtree(tmpdir, ignore_errors=True)
 
-    ctx.traces = len(cs.cases)
+    if stats.get("skipped"):
+        vlib.log("[C03] %d executions skipped after too many crashes / aborts / hangs" % stats["skipped"])
+        if not ctx.violations and not ctx.known_hits:
+            raise vlib.ModelFailure("cases were skipped although nothing failed")
+    ctx.traces = ncases
     ctx.evaluations = stats["runs"]
-    ctx.nontrivial = len(set((c["fmt"], c["comp"], c["hex"]) for c in cs.cases if not c.get("noop")))
+    ctx.nontrivial = nontrivial
     ctx.rule = ("a case = (format, byte string, compression, memory/file); the byte strings are the materialisations of every description "
                 "TLC exports from FaultModel.tla (base file x <= %d faults at distinct structural positions x optional truncation, every "
                 "prefix of every base file, plain and through gzip/bzip2) and of every terminal history of the XML handler model "
                 "FaultModelXml.tla; distinct = distinct (format, compression, bytes); non-trivial = differs from the valid base file; "
-                "evaluations = executions (each case runs in the NDEBUG and in the assertions-enabled build)" % (1 if quick else 2))
-    for cls in ("pbf:fault1", "o5m:fault1", "opl:fault1", "xml:attr", "xml:handler-full3", "xml:handler-full4", "pbf:trunc", "o5m:prefix"):
-        for c in cs.cases:
+                "evaluations = executions (each case runs in the NDEBUG and in the assertions-enabled build%s)"
+                % (1 if quick else 2, "" if quick else "; the 4-element histories of the full-vocabulary XML export alternate between the builds"))
+    for cls in ("pbf:fault1", "o5m:fault1", "opl:fault1", "xml:attr", "xml:handler-full3", "xml:handler-full4", "xml:handler-cs4", "xml:handler-cs6",
+                "pbf:trunc", "o5m:prefix"):
+        for c in samples:
             if c["cls"] == cls:
                 ctx.sample({"key": c["key"], "fmt": c["fmt"], "comp": c["comp"], "via": c["via"], "bytes": len(c["hex"]) // 2,
                             "hex_head": c["hex"][:96], "exp": c.get("exp")}, cap=8)
@@ -347,6 +469,7 @@ def run(ctx):
     ctx.extra["builds"] = ["NDEBUG + ASan + UBSan", "assertions enabled + ASan + UBSan"]
     ctx.extra["duplicates_dropped"] = cs.dups
     ctx.extra["identical_to_valid_file"] = cs.noop
+    ctx.extra["truncation_position_removed_by_a_fault"] = cs.inapplicable
     ctx.exhaustive = False
     ctx.assumptions = [
         "inputs are the structure-aware faults of the catalogue in FaultModel.tla and the element sequences of FaultModelXml.tla within "
